@@ -88,33 +88,32 @@ pub fn check_range(ctx: &mut Ctx, id: &str, src: &str, c: &Cfg, range: (Option<u
         Some(a) => a,
         None => return,
     };
-    let mut infos = stmts::collect(&ast);
+    let infos = stmts::collect(&ast);
     if shift > 0 {
         if ctx.eval(&format!("{id}#bom-probe"), src, c, None, false).result.is_err() {
             ctx.count("bom.rejected_by_library");
             return;
         }
-        for st in infos.iter_mut() {
-            st.start += shift;
-            st.end += shift;
-            st.lead_start += shift;
-            st.trail_end += shift;
-            st.semi_end += shift;
-        }
     }
+    let full_src = src;
+    let full_range = range;
+    // from here on the judged text is the text without the mark and the range is counted in it
+    let src = body;
+    let range = (range.0.map(|x| x.saturating_sub(shift)), range.1.map(|x| x.saturating_sub(shift)));
     let s = range.0.unwrap_or(0);
     let e = range.1.unwrap_or(usize::MAX);
     let regs = regions(&infos, s, e);
-    let r: Range = Some(range);
-    let out_range = match ctx.eval(id, src, c, r, false).result {
-        Ok(t) => t,
+    let r: Range = Some(full_range);
+    let strip = |t: String| -> String { if shift > 0 { t.strip_prefix(BOM).map(|x| x.to_string()).unwrap_or(t) } else { t } };
+    let out_range = match ctx.eval(id, full_src, c, r, false).result {
+        Ok(t) => strip(t),
         Err(_) => {
             ctx.inconclusive("range run did not return Ok");
             return;
         }
     };
-    let out_full = match ctx.eval(&format!("{id}#full"), src, c, None, false).result {
-        Ok(t) => t,
+    let out_full = match ctx.eval(&format!("{id}#full"), full_src, c, None, false).result {
+        Ok(t) => strip(t),
         Err(_) => {
             ctx.inconclusive("whole-file run did not return Ok");
             return;
@@ -123,7 +122,7 @@ pub fn check_range(ctx: &mut Ctx, id: &str, src: &str, c: &Cfg, range: (Option<u
     ctx.count(&format!("regions.{}", regs.len().min(4)));
     let eof_in_range = e >= src.len();
     let case = || {
-        let mut v = case_json(id, src, c, r);
+        let mut v = case_json(id, full_src, c, r);
         v["family"] = json!(family);
         v
     };
